@@ -241,6 +241,13 @@ func bandEdges(rng *rand.Rand, g *world.Gen) func(uint32, *world.BlockSpec) {
 		if bs.SPR == nil || rng.Intn(2) == 0 {
 			return
 		}
+		if rng.Intn(10) == 0 {
+			// forged staking prices: beyond the signed 64-bit range, or huge
+			bs.SPR.Extreme = map[int]uint64{2 + rng.Intn(25): []uint64{1 << 63, 1<<64 - 1, 1<<63 - 1, 1 << 61}[rng.Intn(4)]}
+			if rng.Intn(2) == 0 {
+				bs.OPR = nil
+			}
+		}
 		if rng.Intn(2) == 0 {
 			bs.SPR.Offset = []int{edges[rng.Intn(len(edges))]}
 			bs.SPR.Jitter = 0
